@@ -222,6 +222,59 @@ def modifier_family():
     return out, len(words)
 
 
+# ------------------------------------------------------------------ multi-entity date-time family (seed-independent)
+
+ZH_EXPRS = ['2点', '2点-4点', '2点-明天4点', '明天', '05/05/89', '5月5日', '国庆节', '3天', '下周']
+ZH_TRIPLE = ['2点', '2点-明天4点', '明天', '05/05/89', '国庆节', '下周']
+ZH_JOIN = ['和', '，', '']
+MULTI = {
+    # culture: (conjunction, expressions: bare time, time range(s), date-time range opening with a bare time, dates,
+    #           holiday, period, duration)
+    'en-us': ('and', ['2pm', '2pm-4pm', 'from 2 to 4pm', 'from 2pm to tomorrow 4pm', '2pm till tomorrow 4pm', 'tomorrow',
+                      '05/05/89', 'may 5th', 'christmas', 'next week', '3 days']),
+    'es-es': ('y', ['las 2pm', '2pm-4pm', 'de 2 a 4 pm', 'de 2pm a mañana 4pm', 'mañana', '05/05/89', '5 de mayo',
+                    'navidad', 'la próxima semana', '3 días']),
+    'es-mx': ('y', ['las 2pm', '2pm-4pm', 'de 2 a 4 pm', 'de 2pm a mañana 4pm', 'mañana', '05/05/89', '5 de mayo',
+                    'navidad', 'la próxima semana', '3 días']),
+    'fr-fr': ('et', ['14h', '14h-16h', 'de 14h à 16h', 'de 14h à demain 16h', 'demain', '05/05/89', 'le 5 mai', 'noël',
+                     'la semaine prochaine', '3 jours']),
+    'pt-br': ('e', ['2pm', '2pm-4pm', 'das 2 às 4 da tarde', 'das 2pm até amanhã 4pm', 'amanhã', '05/05/89', '5 de maio',
+                    'natal', 'próxima semana', '3 dias']),
+    'de-de': ('und', ['14 uhr', '14-16 uhr', 'von 14 bis 16 uhr', 'von 14 uhr bis morgen 16 uhr', 'morgen', '05.05.89',
+                      '5. mai', 'weihnachten', 'nächste woche', '3 tage']),
+    'it-it': ('e', ['le 14', '14-16', 'dalle 14 alle 16', 'dalle 14 alle 16 di domani', 'domani', '05/05/89', '5 maggio',
+                    'natale', 'la prossima settimana', '3 giorni']),
+    'nl-nl': ('en', ['14 uur', '14-16 uur', 'van 14 tot 16 uur', 'van 14 uur tot morgen 16 uur', 'morgen', '05/05/89',
+                     '5 mei', 'kerstmis', 'volgende week', '3 dagen']),
+}
+
+
+def multi_entity_family(cultures):
+    """{culture: [(family, query)]}: several date-time expressions of different kinds in one sentence, in every
+    order — what the merged extractors' conflict resolution (add_to / the Chinese move_overlap) has to untangle."""
+    import itertools
+    out = {}
+    if 'zh-cn' in cultures:
+        qs = []
+        for a, b in itertools.permutations(ZH_EXPRS, 2):
+            for j in ZH_JOIN:
+                qs.append(('multi-pair', a + j + b))
+            qs.append(('multi-pair', a + '和你' + b + '有时间吗'))
+        for a, b, c in itertools.permutations(ZH_TRIPLE, 3):
+            qs.append(('multi-triple', a + '和' + b + '，' + c))
+        out['zh-cn'] = qs
+    for cul, (conj, exprs) in MULTI.items():
+        if cul not in cultures:
+            continue
+        qs = []
+        for a, b in itertools.permutations(exprs, 2):
+            qs.append(('multi-pair', '%s %s %s' % (a, conj, b)))
+            qs.append(('multi-pair', '%s, %s' % (a, b)))
+            qs.append(('multi-pair', '%s %s' % (a, b)))
+        out[cul] = qs
+    return out
+
+
 def build_tasks(ctx, which_units=False):
     from . import recog
     common.setup_repo_imports()
@@ -261,6 +314,14 @@ def build_tasks(ctx, which_units=False):
         ctx.extra['modifier_family'] = {'modifier_phrases_accepted_by_config': nwords, 'queries': len(mods)}
         for family, q in mods:
             tasks.append(('DateTime', 'DateTimeModel', 'en-us', q, ref0))
+            fam.append(family)
+    # several date-time expressions per sentence, every registered date-time culture
+    dcults = sorted({p[2] for p in pairs if p[0] == 'DateTime' and p[1] == 'DateTimeModel'})
+    multi = multi_entity_family(dcults)
+    ctx.extra['multi_entity_family'] = {c: len(q) for c, q in sorted(multi.items())}
+    for cul, qs in sorted(multi.items()):
+        for family, q in qs:
+            tasks.append(('DateTime', 'DateTimeModel', cul, q, ref0))
             fam.append(family)
     # boundary queries for every pair
     for p in pairs:
